@@ -265,6 +265,48 @@ def namesake_family(seed, n):
     return out
 
 
+def provoke_failed_lenient_parse(run):
+    """container files whose header schema cannot be parsed — not even leniently, as `reader(fo, reader_schema=…)` parses
+    it — are opened; each open must raise, and (checked by everything that runs afterwards) leave no leniency behind"""
+    import io
+    import fastavro
+    good = {"type": "record", "name": "P", "fields": [{"name": "e", "type": {"type": "enum", "name": "EE", "symbols": ["AB", "CD"]}},
+                                                      {"name": "n", "type": "int", "default": 10}]}
+    fo = io.BytesIO()
+    fastavro.writer(fo, good, [{"e": "AB", "n": 1}], sync_marker=b"\x03" * 16)
+    raw = fo.getvalue()
+    for old, new in ((b'"AB", "CD"', b'"AB", "AB"'), (b'"name": "EE"', b'"name": "P"  '.replace(b"  ", b"") + b" "),
+                     (b'"type": "int"', b'"type": "iny"')):
+        bad = raw.replace(old, new, 1)
+        if bad == raw or len(bad) != len(raw):
+            continue
+        for rs in (good, None):
+            run.cov["evaluations"] += 1
+            run.tag("failed-lenient-parse")
+            try:
+                list(fastavro.reader(io.BytesIO(bad), reader_schema=rs))
+                run.fail({"header_patch": [old.decode(), new.decode()], "reader_schema": rs is not None, "tags": ["failed-lenient-parse"]},
+                         "a container file whose header schema is ill-formed (%s) was opened without an error" % new.decode(), kind="oracle")
+            except Exception:
+                pass
+
+
+def shared_object_family(seed, n):
+    """a name defined twice where the two definitions are the SAME Python dict object (schemas assembled from shared
+    constants): still a name defined twice"""
+    import random
+    out = []
+    for i in range(n):
+        r = random.Random(seed * 1579 + i)
+        D = r.choice([{"type": "enum", "name": "Shared", "symbols": ["A", "B"]}, {"type": "fixed", "name": "x.Shared", "size": 4},
+                      {"type": "record", "name": "Shared", "namespace": "x", "fields": [{"name": "f", "type": "int"}]}])
+        pos = r.choice(["fields", "array", "union-in-field", "map"])
+        second = {"fields": D, "array": {"type": "array", "items": D}, "union-in-field": ["null", D], "map": {"type": "map", "values": D}}[pos]
+        s = {"type": "record", "name": "Top", "fields": [{"name": "a", "type": D}, {"name": "k", "type": "int"}, {"name": "b", "type": second}]}
+        out.append(("redefined-name:same-object", s))
+    return out
+
+
 def run(tier, seed):
     run = Run("C11", tier, seed)
     run.rule = ("valid schemas of the generator (nested namespaces incl. explicit empty ones, dotted names, references "
@@ -288,6 +330,8 @@ def run(tier, seed):
         except Exception:
             pass
     cases += namesake_family(seed, scale(tier, 40))
+    cases += shared_object_family(seed, scale(tier, 30))
+    provoke_failed_lenient_parse(run)      # a fault in an earlier call must not relax the checks of the calls below
     spec = run_batch([{"op": "spec.canon", "schema": to_wire(s)} for k, s in cases])
     model = run_batch([{"op": "parse", "schema": to_wire(s)} for k, s in cases])
     for k, (kind, s) in enumerate(cases):
